@@ -387,6 +387,8 @@ func init() {
 		Assumptions: commonAssumptions,
 		Run: func(w *World, r *Report) {
 			v2 := w.Pkg(pathV2)
+			safely(r, "ruleYamlMergeKey", func() { ruleYamlMergeKey(w, r, v2, "v2") })
+			safely(r, "ruleBlankDoc", func() { ruleBlankDoc(w, r, v2, "v2") })
 			safely(r, "ruleExplicitPanics", func() { ruleExplicitPanics(w, r, v2, "v2") })
 			safely(r, "ruleYamlTypes", func() { ruleYamlTypes(w, r, v2) })
 			safely(r, "ruleCodecRoutes", func() { ruleCodecRoutes(w, r, v2, "v2") })
